@@ -13,6 +13,7 @@ import (
 	"golang.org/x/tools/go/packages"
 	"golang.org/x/tools/go/callgraph"
 	"golang.org/x/tools/go/ssa"
+	"golang.org/x/tools/go/types/typeutil"
 )
 
 func engineORD(w *World, tier string) *EngineResult {
@@ -1479,6 +1480,7 @@ func ordArgs(w *World, r *EngineResult) {
 		for _, s := range d.Body.List {
 			var groupTag string
 			var body ast.Node
+			trueParams := map[types.Object]bool{}
 			switch x := s.(type) {
 			case *ast.RangeStmt:
 				ast.Inspect(x.X, func(n ast.Node) bool {
@@ -1489,13 +1491,55 @@ func ordArgs(w *World, r *EngineResult) {
 				})
 				body = x.Body
 			case *ast.IfStmt:
-				ast.Inspect(x.Cond, func(n ast.Node) bool {
-					if sel, ok := n.(*ast.SelectorExpr); ok && tagOf[sel.Sel.Name] != "" {
-						groupTag = tagOf[sel.Sel.Name]
+				for _, hd := range []ast.Node{x.Init, x.Cond} {
+					if hd == nil || (hd == ast.Node(x.Init) && x.Init == nil) {
+						continue
 					}
-					return true
-				})
+					ast.Inspect(hd, func(n ast.Node) bool {
+						if sel, ok := n.(*ast.SelectorExpr); ok && tagOf[sel.Sel.Name] != "" {
+							groupTag = tagOf[sel.Sel.Name]
+						}
+						return true
+					})
+				}
 				body = x.Body
+			case *ast.AssignStmt:
+				// args = helper(args, fn.Group, <flag constants>…): the helper's body is the
+				// group's body, its flag parameters stand for the constants passed
+				if len(x.Rhs) == 1 {
+					if call, ok := x.Rhs[0].(*ast.CallExpr); ok {
+						if hf, ok := typeutil.Callee(info, call).(*types.Func); ok && hf.Pkg() == pk.Types {
+							for _, a := range call.Args {
+								ast.Inspect(a, func(n ast.Node) bool {
+									if sel, ok := n.(*ast.SelectorExpr); ok && tagOf[sel.Sel.Name] != "" && groupTag == "" {
+										groupTag = tagOf[sel.Sel.Name]
+									}
+									return true
+								})
+							}
+							w.eachFuncDecl(func(pk2 *packages.Package, d2 *ast.FuncDecl) {
+								if pk2 == pk && info.ObjectOf(d2.Name) == types.Object(hf) {
+									body = d2.Body
+									trueParams = map[types.Object]bool{}
+									pi := 0
+									for _, f := range d2.Type.Params.List {
+										for _, nm := range f.Names {
+											if pi < len(call.Args) {
+												if id, ok := call.Args[pi].(*ast.Ident); ok && id.Name == "true" {
+													trueParams[info.ObjectOf(nm)] = true
+												}
+											}
+											pi++
+										}
+									}
+								}
+							})
+						}
+					}
+				}
+			}
+			if body == nil {
+				continue
 			}
 			if groupTag == "" || !contains(want, groupTag) {
 				continue
@@ -1522,11 +1566,11 @@ func ordArgs(w *World, r *EngineResult) {
 								}
 								switch jsonTag(cst, i) {
 								case "is_default":
-									if id, ok := kv.Value.(*ast.Ident); ok && id.Name == "true" {
+									if id, ok := kv.Value.(*ast.Ident); ok && (id.Name == "true" || trueParams[info.ObjectOf(id)]) {
 										fl[0] = true
 									}
 								case "is_asterisk":
-									if id, ok := kv.Value.(*ast.Ident); ok && id.Name == "true" {
+									if id, ok := kv.Value.(*ast.Ident); ok && (id.Name == "true" || trueParams[info.ObjectOf(id)]) {
 										fl[1] = true
 									}
 								case "key":
